@@ -575,7 +575,13 @@ impl FileSystem for SimFs {
                 out.insert(d.clone());
             }
         }
-        Ok(out.into_iter().collect())
+        // the FileSystem trait promises no order: alternate between ascending and descending
+        // (code that relies on the order of a listing is wrong on some filesystem)
+        let mut v: Vec<PathBuf> = out.into_iter().collect();
+        if st.op_counter % 2 == 1 {
+            v.reverse();
+        }
+        Ok(v)
     }
 
     fn open_file(&self, path: &Path) -> io::Result<Box<dyn ReadonlyRandomAccessFile>> {
